@@ -122,7 +122,7 @@ PROPS = {
                       'and code-separator position - covering pushes and the 520-byte limit, constants, flow control, all '
                       'stack operations, 4-byte-limited arithmetic and comparisons, the five hash opcodes, CHECKSIG(VERIFY) '
                       'with signature removal and CODESEPARATOR, NOPs with the discourage flag, disabled/reserved opcodes in '
-                      'both branches, the 201-operation and 1000-item limits. CHECKMULTISIG: containment, operation counting, stack shrinkage and the NULLDUMMY rule (the extra element must be the empty vector, elements below it untouched) are proved; its signature-matching loop is not specified against a reference.',
+                      'both branches, the 201-operation and 1000-item limits. CHECKMULTISIG(VERIFY) is proved separately on _CheckMultiSig: containment, operation counting, the NULLDUMMY rule, and the full outcome - the n + m + 3 elements are replaced by true/false (VERIFY: removed, fails when false) according to the reference matching of the m signatures against the n keys in order (specs/interp.py msig) over the subscript with every signature removed; the composition of that contract into the main-loop step is by the call site only (the step contract itself leaves opcodes 0xae/0xaf to it).',
         'level_note': 'trusted: pyvc, z3/cvc5, assumed _CheckSig / FindAndDelete / bn2vch contracts, specs/interp.py',
         'design_ref': 'DESIGN.md 5 C06',
         'explanation': 'interpreter step contracts',
@@ -431,7 +431,7 @@ PROPS = {
             'int.bit_length(v) = k  <=>  2^(k-1) <= |v| < 2^k (assumed built-in contract, conformance-tested)',
             'struct.unpack("<I") of 4 bytes is their little-endian value (assumed built-in contract)',
             'Python int is a mathematical integer',
-            "per-chain proof-of-work limits are the library's documented values (signet = mainnet value)",
+            "per-chain proof-of-work limits are the consensus powLimit values of the four chains (specs/c17.py)",
         ],
         'level_text': 'All obligations of the contracts on uint256_from_compact, compact_from_uint256 (two contracts), '
                       'uint256_from_str and CheckProofOfWork (x4 chains) are generated from the current source and '
